@@ -85,7 +85,9 @@ impl Vm {
     pub fn compare_pair(&self, mut left: VCell, mut right: VCell) -> Result<bool, Error> {
         loop {
             if !left.is_pair() || !right.is_pair() {
-                return self.eqv(&left, &right);
+                // the tails of improper lists are compared like any other pair of
+                // objects: a vector or string in tail position structurally
+                return self.equal(&left, &right);
             }
             let lcar = left.as_car()?;
             let rcar = right.as_car()?;
